@@ -137,6 +137,8 @@ func CompareGets(st *mavl.Store, root []byte, keys []string, model map[string]st
 	for i, k := range keys {
 		want, ok := model[k]
 		switch {
+		case ok && want == "" && len(vals[i]) == 0:
+			// an empty value is the state's "deleted" marker: it reads as empty or as nothing
 		case ok && vals[i] == nil:
 			return fmt.Sprintf("get: key %q written in this state reads as nothing", k)
 		case ok && string(vals[i]) != want:
